@@ -20,9 +20,14 @@ func createDynForWindowedThroughputSampler(c *config.WindowedThroughputSamplerCo
 	}
 	clusterSize := 1 // Will be updated by SetClusterSize if needed
 
+	updateFreq := time.Duration(c.UpdateFrequency)
+	if updateFreq < 0 { // would panic in dynsampler's ticker goroutine; 0 selects its default
+		updateFreq = 0
+	}
+
 	dynsamplerInstance := &dynsampler.WindowedThroughput{
 		GoalThroughputPerSec:      float64(c.GoalThroughputPerSec) / float64(clusterSize),
-		UpdateFrequencyDuration:   time.Duration(c.UpdateFrequency),
+		UpdateFrequencyDuration:   updateFreq,
 		LookbackFrequencyDuration: time.Duration(c.LookbackFrequency),
 		MaxKeys:                   maxKeys,
 	}
